@@ -25,6 +25,7 @@ type Opts struct {
 	NonDefault bool   // non-default private values
 	LongPaths  bool
 	Huge       bool // an encrypted portion well beyond 64 KiB (three-byte PFB segment lengths)
+	BigFrac    bool // one glyph with fractional coordinates whose magnitude exceeds 2^31/107 (exact with a small denominator only)
 }
 
 var stdNames = []string{"space", "exclam", "A", "B", "C", "a", "b", "c", "zero", "one", "period", "comma", "hyphen", "grave", "acute"}
@@ -111,7 +112,9 @@ func Generate(rng *rand.Rand, o Opts) *type1.Font {
 		f.Private.ForceBold = true
 		f.Private.OtherBlues = []funit.Int16{-250, -240}
 		f.ItalicAngle = -12.5
-		f.FontMatrix = matrix.Matrix{0.001, 0, 0.0002, 0.001, 0, 0}
+		// slanted, turned by a quarter (zero diagonal), mirrored, 2048 units per em, shifted
+		f.FontMatrix = []matrix.Matrix{{0.001, 0, 0.0002, 0.001, 0, 0}, {0, 0.001, -0.001, 0, 0, 0}, {-0.001, 0, 0, 0.001, 0, 0},
+			{0.00048828125, 0, 0, 0.00048828125, 0, 0}, {0, -0.001, 0.001, 0, 0, 0}, {0.001, 0, 0, 0.001, 0.5, -0.25}}[rng.Intn(6)]
 	}
 	// glyph names: .notdef, standard names, then synthetic regular-character names
 	names := []string{".notdef"}
@@ -197,6 +200,16 @@ func Generate(rng *rand.Rand, o Opts) *type1.Font {
 					if rng.Intn(3) == 0 {
 						y3 = y2 // arrives horizontally
 					}
+					// near misses of the two short curve forms: the end point is level with the first
+					// control point (not with the second one), or exactly above / below it
+					switch rng.Intn(8) {
+					case 0:
+						y3 = y1
+					case 1:
+						x3 = x1
+					case 2:
+						x3, y3 = x1, y1
+					}
 					g.CurveTo(x1, y1, x2, y2, x3, y3)
 					cx, cy = x3, y3
 				}
@@ -221,6 +234,17 @@ func Generate(rng *rand.Rand, o Opts) *type1.Font {
 			g.VStem = []funit.Int16{-32768, 32767, 100, 200}
 		}
 		f.Glyphs[name] = g
+	}
+	if o.BigFrac {
+		// halves and quarters at magnitudes where only small denominators keep the numerator within 32 bits
+		g := &type1.Glyph{WidthX: 600}
+		g.MoveTo(25000000.5, 0)
+		g.LineTo(25000000.5, 1000.25)
+		g.LineTo(-30000000.25, 1000.25)
+		g.CurveTo(-30000000.25, 500, -20000000.75, 250.5, 100.5, -40000000.5)
+		g.LineTo(400000000.5, -7.75)
+		g.ClosePath()
+		f.Glyphs["bigfrac"] = g
 	}
 	switch o.Encoding {
 	case "none":
